@@ -279,6 +279,7 @@ def run(ctx: Ctx) -> None:
         live_runner(ctx, clock)
         two_recovery_runs(ctx, clock)
         stale_scan_meets_taken(ctx, clock)
+        poller_during_recovery(ctx, clock)
         large_backlog(ctx, clock)
     finally:
         clock.uninstall()
@@ -462,6 +463,74 @@ def stale_scan_meets_taken(ctx: Ctx, clock: VirtualClock) -> None:
             lost = [i for i in ids if b.rec(i)[0] == "rerouted" and i not in q]
             if lost:
                 ctx.report(f"rerouted-not-queued[{kind}]:{rk}:stale-scan", f"[{kind}] {len(lost)} REROUTED invocation(s) are in no queue after two overlapping recovery runs", rep)
+
+
+def poller_during_recovery(ctx: Ctx, clock: VirtualClock) -> None:
+    """a live runner polls the broker right after every message the recovery run queues (and once more after every status it
+    writes): whatever it is handed it holds; everything else the run re-queued is REROUTED, un-owned and IN the queue"""
+    from pynenc.invocation.status import InvocationStatus as S
+
+    for kind in ("mem", "sqlite"):
+        for rk in ("pending", "running"):
+            for when in ("after-push", "after-status"):
+                n = 4
+                b = Back(ctx, kind, 5.0, 0.5, f"poll{rk}{when[6:]}")
+                dead, live = rctx("rDead"), rctx("rLive")
+                ids = [b.task(j).invocation_id for j in range(n)]
+                for i in ids:
+                    b.o.set_invocation_status(i, S.PENDING, dead)
+                    if rk == "running":
+                        b.o.set_invocation_status(i, S.RUNNING, dead)
+                clock.advance(3_600_000_000)
+                b.o.register_runner_heartbeats(["recovery", "rLive"])
+                got: list[str] = []
+                busy = {"v": False}
+
+                def poll() -> None:
+                    if busy["v"]:
+                        return
+                    busy["v"] = True
+                    try:
+                        got.extend(x.invocation_id for x in b.o.get_invocations_to_run(1, live))
+                    finally:
+                        busy["v"] = False
+
+                real_push, real_set = b.app.broker.route_invocation, b.o.set_invocation_status
+
+                def push(i):  # type: ignore[no-untyped-def]
+                    r = real_push(i)
+                    if when == "after-push":
+                        poll()
+                    return r
+
+                def setst(i, st, c):  # type: ignore[no-untyped-def]
+                    r = real_set(i, st, c)
+                    if when == "after-status" and c.runner_id == "recovery":
+                        poll()
+                    return r
+
+                b.app.broker.route_invocation = push  # type: ignore[method-assign]
+                b.o.set_invocation_status = setst  # type: ignore[method-assign]
+                try:
+                    out = run_recovery(b.app, rk)
+                finally:
+                    del b.app.broker.route_invocation
+                    del b.o.set_invocation_status
+                flush(b.app)
+                q = b.queue()
+                ctx.count()
+                ctx.distinct((kind, "poller-during-recovery", rk, when))
+                rep = {"scenario": "poller-during-recovery", "backend": kind, "kind": rk, "poll": when}
+                if out != "done":
+                    ctx.report(f"recovery-run-raised[{kind}]:{rk}:live-poller", f"[{kind}] recover_{rk}_invocations {out} while a live runner polls {when}", rep)
+                for i in ids:
+                    st, ow, _ = b.rec(i)
+                    held = ow == "rLive" and st in ("pending", "running")
+                    if not held and not (st == "rerouted" and ow is None and i in q):
+                        ctx.report(f"recovered-but-unreachable[{kind}]:{rk}:live-poller",
+                                   f"[{kind}] a live runner polls the broker {when} of recover_{rk}_invocations: a stuck invocation ends {st}, owner {ow}, queued {i in q}, handed to the live runner "
+                                   f"{i in got}: neither held by the live runner nor re-queued", rep)
+                        break
 
 
 def large_backlog(ctx: Ctx, clock: VirtualClock) -> None:
